@@ -19,7 +19,7 @@ def run(tier, seed):
     for mode in ("f", "p"):
         b = f"{w}/beh_{mode}.ndjson"
         gens.append(tlc_gen("MC_MasterServer.tla", cfg_for(tier, f"Gen_MasterServer_{mode}.cfg"), "BEHAVIOUR", b, name=f"c16_gen{mode}", timeout=1800))
-        r = vh(["master", "--in", b, "--reps", (2 if quick else 6) if mode == "f" else (5 if quick else 40), "--seed", seed], name=f"c16{mode}")
+        r = vhr(["master", "--in", b], (2 if quick else 6) if mode == "f" else (5 if quick else 40), seed, tier, name=f"c16{mode}")
         v.add_report(r, "filters" if mode == "f" else "paging")
         reps.append(r)
     nviol, _ = v.finish()
